@@ -135,6 +135,14 @@ def run(fx, tier):
             v.check(ok, 'R-OWN', 'connect_op::on_connack sets session_present [%s]' % f.tu,
                     'session_present := Session Present flag (field 0) of the decoded CONNACK',
                     key='C13:R-OWN:on_connack:session_present', where='%s:%d' % (f.path_file(), l))
+            # ... before the connect can complete or hand over to the authenticator (whose completion ends the connect)
+            dom = f.dominators()
+            for bb, ii, ll, cc in f.calls():
+                if (callee_name(cc) == 'complete' and callee_cls(cc) == 'connect_op') or callee_name(cc) == 'async_auth':
+                    okd = (bb == b and i < ii) or (bb != b and b in dom.get(bb, set()))
+                    v.check(okd, 'R-OWN', 'connect_op::on_connack stores session_present before %s@%s [%s]' % (callee_name(cc), ll, f.tu),
+                            'the flag of THIS CONNACK is stored on every path on which the connect completes or continues',
+                            key='C13:R-OWN:on_connack:stored-before-%s' % callee_name(cc), where='%s:%d' % (f.path_file(), ll))
         elif f.cls == 'client_service' and f.n == 'update_session_state':
             v.check(peval(origin(f, c['args'][0])) == 1, 'R-OWN', 'update_session_state sets session_present [%s]' % f.tu,
                     'only to true', key='C13:R-OWN:update_session_state:session_present', where='%s:%d' % (f.path_file(), l))
